@@ -29,7 +29,7 @@ def _alarm(signum, frame):
 def build_mesh(spec):
     import mouette as M
     r = M.mesh.RawMeshData()
-    r.vertices += [tuple(float(x) for x in v) for v in spec["V"]]
+    r.vertices += [tuple(float(x) for x in v) for v in (spec.get("pre_V") or spec["V"])]
     if spec.get("E"):
         r.edges += [tuple(e) for e in spec["E"]]
     if spec.get("F"):
@@ -97,18 +97,104 @@ def raw_slots(m, spec, kind, excl, with_border):
     return raw, is_poly
 
 
-def tree_obs(t):
-    def trav(order):
-        out = []
-        for k, (node, par) in enumerate(t.traverse(order)):
-            out.append([int(node), opt(par)])
-            if k > 100000:
-                raise RuntimeError("traverse does not terminate")
-        return out
-    return {"root": int(t.root), "parent": [opt(p) for p in t.parent],
-            "children": [ints(c) for c in t.children],
-            "edges": [ints(e) for e in t.edges],
-            "bfs": trav("BFS"), "dfs": trav("DFS")}
+def _trav(t, order):
+    out = []
+    for k, (node, par) in enumerate(t.traverse(order)):
+        out.append([int(node), opt(par)])
+        if k > 100000:
+            raise RuntimeError("traverse does not terminate")
+    return out
+
+
+TREE_READS = {
+    "root": lambda t: int(t.root),
+    "parent": lambda t: [opt(p) for p in t.parent],
+    "children": lambda t: [ints(c) for c in t.children],
+    "edges": lambda t: [ints(e) for e in t.edges],
+    "bfs": lambda t: _trav(t, "BFS"),
+    "dfs": lambda t: _trav(t, "DFS"),
+}
+FOREST_READS = {
+    "roots": lambda f: ints(f.roots),
+    "n_trees": lambda f: int(f.n_trees),
+    "tree_roots": lambda f: [int(t.root) for t in f.trees],
+    "edges": lambda f: [ints(e) for e in f.edges],
+    "bfs": lambda f: [[int(a), opt(b)] for a, b in f.traverse("BFS")],
+    "dfs": lambda f: [[int(a), opt(b)] for a, b in f.traverse("DFS")],
+    "getitem": lambda f: [int(f[k].root) for k in range(len(f.trees))],
+}
+
+
+def _orders(keys, k):
+    """two different orders of the same reads, chosen by the case"""
+    keys = sorted(keys)
+    r = k % len(keys)
+    first = keys[r:] + keys[:r]
+    return first, list(reversed(first))
+
+
+def snapshot(obj, reads, order):
+    return {name: reads[name](obj) for name in order}
+
+
+def tree_obs(t, k=0, unstable=None, label="tree"):
+    """every public table / accessor of the tree read twice, in two different orders: reading must neither
+    change the answers nor depend on what was read before; the LAST reads are reported"""
+    o1, o2 = _orders(TREE_READS, k)
+    s1 = snapshot(t, TREE_READS, o1)
+    s2 = snapshot(t, TREE_READS, o2)
+    if unstable is not None:
+        for name in TREE_READS:
+            if s1[name] != s2[name]:
+                unstable.append("%s.%s changed between two reads: %s then %s" % (label, name, str(s1[name])[:120], str(s2[name])[:120]))
+    return s2
+
+
+def forest_obs(f, k=0, unstable=None):
+    """trees and forest-level accessors read twice in two interleavings; each tree's own tables are re-inspected
+    after the forest-level reads"""
+    res = {}
+    o1, o2 = _orders(FOREST_READS, k)
+    if k % 2 == 0:
+        trees1 = [snapshot(t, TREE_READS, sorted(TREE_READS)) for t in f.trees]
+        f1 = snapshot(f, FOREST_READS, o1)
+    else:
+        f1 = snapshot(f, FOREST_READS, o1)
+        trees1 = [snapshot(t, TREE_READS, sorted(TREE_READS)) for t in f.trees]
+    f2 = snapshot(f, FOREST_READS, o2)
+    trees2 = [tree_obs(t, k + j, unstable, "forest.trees[%d]" % j) for j, t in enumerate(f.trees)]
+    f3 = snapshot(f, FOREST_READS, o1)
+    if unstable is not None:
+        for name in FOREST_READS:
+            if not (f1[name] == f2[name] == f3[name]):
+                unstable.append("forest.%s changed between reads: %s / %s / %s" % (name, str(f1[name])[:100], str(f2[name])[:100], str(f3[name])[:100]))
+        for j, (a, b) in enumerate(zip(trees1, trees2)):
+            for name in TREE_READS:
+                if a[name] != b[name]:
+                    unstable.append("forest.trees[%d].%s changed after forest-level reads: %s then %s" % (j, name, str(a[name])[:120], str(b[name])[:120]))
+    res.update({k2: f3[k2] for k2 in ("roots", "n_trees", "tree_roots", "edges", "bfs", "dfs")})
+    if f3["getitem"] != f3["tree_roots"]:
+        unstable.append("forest[k] is not forest.trees[k]")
+    res["trees"] = trees2
+    return res
+
+
+def prepare(m, case):
+    """multi-step scenarios before the tree is built: geometric attributes computed persistently, then the vertices
+    move; pre-existing attributes whose names collide with the ones the trees package computes"""
+    import mouette as M
+    pre = case.get("pre") or {}
+    if pre.get("preset_length") is not None:
+        vals = pre["preset_length"]
+        a = m.edges.create_attribute("length", float, dense=bool(pre.get("dense", True)))
+        for e in range(len(m.edges)):
+            a[e] = float(vals[e % len(vals)])
+    if pre.get("persist_length"):
+        from mouette.attributes import edge_length
+        edge_length(m)    # persistent=True by default: stored on mesh.edges as "length"
+    if case["mesh"].get("pre_V"):
+        for i, v in enumerate(case["mesh"]["V"]):
+            m.vertices[i] = M.Vec(float(v[0]), float(v[1]), float(v[2]))
 
 
 def run_case(case):
@@ -116,8 +202,11 @@ def run_case(case):
     from mouette.processing import trees as T
     spec = case["mesh"]
     m = build_mesh(spec)
+    prepare(m, case)
     kind = case["kind"]
     op = case["op"]
+    unstable = []
+    ro = int(case.get("read_order", 0))
     excl = case.get("excl")
     excl_set = None if excl is None else set(excl)
     res = {"op": op, "kind": kind}
@@ -134,7 +223,7 @@ def run_case(case):
             else:
                 t = T.CellSpanningTree(m, case["root"], excl_set)()
             res["err"] = None
-            res.update(tree_obs(t))
+            res.update(tree_obs(t, ro, unstable))
         except (IndexError, KeyError) as ex:
             res["err"] = type(ex).__name__
     elif op == "forest":
@@ -147,13 +236,7 @@ def run_case(case):
         else:
             f = T.CellSpanningForest(m)()
         res["err"] = None
-        res["roots"] = ints(f.roots)
-        res["n_trees"] = int(f.n_trees)
-        res["trees"] = [tree_obs(t) for t in f.trees]
-        res["tree_roots"] = [int(t.root) for t in f.trees]
-        res["edges"] = [ints(e) for e in f.edges]
-        res["bfs"] = [[int(a), opt(b)] for a, b in f.traverse("BFS")]
-        res["dfs"] = [[int(a), opt(b)] for a, b in f.traverse("DFS")]
+        res.update(forest_obs(f, ro, unstable))
     elif op == "kruskal":
         from mouette.mesh.datatypes import PolyLine
         poly = isinstance(m, PolyLine)
@@ -176,7 +259,7 @@ def run_case(case):
             t = T.EdgeMinimalSpanningTree(m, case["root"], avoid_boundary=bool(case.get("avoid_boundary", False)),
                                           weights=weights)()
             res["err"] = None
-            res.update(tree_obs(t))
+            res.update(tree_obs(t, ro, unstable))
         except (IndexError, KeyError) as ex:
             res["err"] = type(ex).__name__
         # float lengths as the implementation computes them (for the oracle's own minimum)
@@ -185,6 +268,7 @@ def run_case(case):
         res["len_float"] = [float(L[e]) for e in range(len(m.edges))]
     else:
         raise ValueError(op)
+    res["unstable"] = unstable
     return res
 
 
